@@ -781,17 +781,43 @@ pub fn div(
     let lhs = get_register(detail.operands[0].reg())?.expression();
     let rhs = get_register(detail.operands[1].reg())?.expression();
 
-    let block_index = {
+    // A zero divisor raises no exception: the instruction completes and leaves
+    // $hi/$lo UNPREDICTABLE (here: unchanged).
+    let head_index = {
         let block = control_flow_graph.new_block()?;
 
-        block.assign(scalar("$lo", 32), Expr::divs(lhs.clone(), rhs.clone())?);
-        block.assign(scalar("$hi", 32), Expr::mods(lhs, rhs)?);
+        block.nop();
 
         block.index()
     };
 
-    control_flow_graph.set_entry(block_index)?;
-    control_flow_graph.set_exit(block_index)?;
+    let op_index = {
+        let block = control_flow_graph.new_block()?;
+
+        block.assign(scalar("$lo", 32), Expr::divs(lhs.clone(), rhs.clone())?);
+        block.assign(scalar("$hi", 32), Expr::mods(lhs, rhs.clone())?);
+
+        block.index()
+    };
+
+    let terminating_index = { control_flow_graph.new_block()?.index() };
+
+    control_flow_graph.conditional_edge(
+        head_index,
+        op_index,
+        Expr::cmpneq(rhs.clone(), expr_const(0, 32))?,
+    )?;
+
+    control_flow_graph.conditional_edge(
+        head_index,
+        terminating_index,
+        Expr::cmpeq(rhs, expr_const(0, 32))?,
+    )?;
+
+    control_flow_graph.unconditional_edge(op_index, terminating_index)?;
+
+    control_flow_graph.set_entry(head_index)?;
+    control_flow_graph.set_exit(terminating_index)?;
 
     Ok(())
 }
@@ -806,17 +832,43 @@ pub fn divu(
     let lhs = get_register(detail.operands[0].reg())?.expression();
     let rhs = get_register(detail.operands[1].reg())?.expression();
 
-    let block_index = {
+    // A zero divisor raises no exception: the instruction completes and leaves
+    // $hi/$lo UNPREDICTABLE (here: unchanged).
+    let head_index = {
         let block = control_flow_graph.new_block()?;
 
-        block.assign(scalar("$lo", 32), Expr::divu(lhs.clone(), rhs.clone())?);
-        block.assign(scalar("$hi", 32), Expr::modu(lhs, rhs)?);
+        block.nop();
 
         block.index()
     };
 
-    control_flow_graph.set_entry(block_index)?;
-    control_flow_graph.set_exit(block_index)?;
+    let op_index = {
+        let block = control_flow_graph.new_block()?;
+
+        block.assign(scalar("$lo", 32), Expr::divu(lhs.clone(), rhs.clone())?);
+        block.assign(scalar("$hi", 32), Expr::modu(lhs, rhs.clone())?);
+
+        block.index()
+    };
+
+    let terminating_index = { control_flow_graph.new_block()?.index() };
+
+    control_flow_graph.conditional_edge(
+        head_index,
+        op_index,
+        Expr::cmpneq(rhs.clone(), expr_const(0, 32))?,
+    )?;
+
+    control_flow_graph.conditional_edge(
+        head_index,
+        terminating_index,
+        Expr::cmpeq(rhs, expr_const(0, 32))?,
+    )?;
+
+    control_flow_graph.unconditional_edge(op_index, terminating_index)?;
+
+    control_flow_graph.set_entry(head_index)?;
+    control_flow_graph.set_exit(terminating_index)?;
 
     Ok(())
 }
